@@ -421,7 +421,7 @@ theorem smarts_printDoc (d : DocAtom) (h : DocWF d = true) :
       | none =>
         cases d.masked <;> simp [numberAtoms, maskedBase]
     rw [hnum]
-    simp only [buildAtoms, List.contains_nil, hb, bind, Except.bind, Bool.false_eq_true, if_false, buildBonds]
+    simp only [buildAtoms, List.contains_nil, hb, bind, Except.bind, Bool.false_eq_true, if_false, buildBonds, buildBondsAux]
   simp only [smartsModel, hinner]
 
 end ChythonModel.Proofs.C08
